@@ -5,6 +5,8 @@ import Librfn.Driver.List
 import Librfn.Driver.Ring
 import Librfn.Driver.Pack
 import Librfn.Driver.Wav
+import Librfn.Driver.Messageq
+import Librfn.Driver.MessageqConc
 
 def main (args : List String) : IO UInt32 :=
   match args with
@@ -15,4 +17,6 @@ def main (args : List String) : IO UInt32 :=
   | "ring" :: rest => Librfn.Driver.Ring.main rest
   | "pack" :: rest => Librfn.Driver.Pack.main rest
   | "wav" :: rest => Librfn.Driver.Wav.main rest
+  | "messageq" :: rest => Librfn.Driver.Messageq.main rest
+  | "messageq-conc" :: rest => Librfn.Driver.MessageqConc.main rest
   | _ => do IO.eprintln "usage: librfn_model <engine> [args]"; return 2
